@@ -1,6 +1,7 @@
 (* C18 - winding number, hit test, signed area and orientation agree with geometry. *)
 From Coq Require Import QArith Qminmax.
-From LV Require Import Base.Prelude Model.Bezier Model.Winding Proofs.C18_Winding Gen.Functions Proofs.Gen_Functions.
+From LV Require Import Base.Prelude Model.Bezier Model.Winding Proofs.C18_Winding Gen.Functions Proofs.Gen_Functions
+  Proofs.Gen_Geom Proofs.Gen_GeomProps.
 Open Scope Q_scope.
 
 (* for a point not on the outline the coded accumulation equals the signed crossing number,
@@ -65,6 +66,15 @@ Proof. vm_compute. reflexivity. Qed.
 Theorem C18_is_in_is_source : forall r w, src_fill_rule_is_in r w = is_in r w.
 Proof. exact src_fill_rule_is_in_is_model. Qed.
 
+(* hit_test.rs's per-segment step, translated from the source on every run (a procedure over `winding: &mut i32`
+   read as a function returning the accumulator), IS the model's; and the spec theorem holds of it *)
+Theorem C18_test_segment_is_source : forall p a b w, src_test_segment p (mkLine a b) w = test_segment p a b w.
+Proof. exact src_test_segment_is_model. Qed.
+
+Theorem C18_src_hit_wn_spec : forall p path, off_outline p (path_edges path) ->
+  fold_left (fun w e => src_test_segment p (mkLine (fst e) (snd e)) w) (path_edges path) 0%Z = wn p (path_edges path).
+Proof. exact src_hit_wn_spec. Qed.
+
 Print Assumptions C18_hit_wn_spec.
 Print Assumptions C18_hit_test_is_in.
 Print Assumptions C18_is_in_spec.
@@ -78,3 +88,5 @@ Print Assumptions C18_area_reverse_neg.
 Print Assumptions C18_winding_sign_area.
 Print Assumptions C18_rectangle_direction.
 Print Assumptions C18_is_in_is_source.
+Print Assumptions C18_test_segment_is_source.
+Print Assumptions C18_src_hit_wn_spec.
